@@ -5,7 +5,7 @@ import numpy as np
 
 from harness import circgen as cg, logicsim_corr as lc, simcheck as sk, wavecheck as wk, waveoracle as wo, wavesim_corr as wc
 
-THEOREMS = ['C06_gpu_threads_cover', 'C06_lane_independent', 'C06_release_order_irrelevant']
+THEOREMS = ['C06_gpu_threads_cover', 'C06_lane_independent', 'C06_release_order_irrelevant', 'C06_strip_forks_irrelevant']
 COLS = [3, 4, 5, 6, 7, 10]
 
 
